@@ -370,6 +370,7 @@ pub fn run(line: &str) -> Option<(String, Vec<String>)> {
         Some("Q") => run_q(&t),
         Some("S") => run_s(&t),
         Some("U") => run_u(&t),
+        Some("W") => run_w(&t),
         _ => None,
     }
 }
@@ -578,6 +579,24 @@ pub const U_FORMATS: &[&str] = &[
 /// `debug_assert!(x <= 254)` of `s8::from_norm` and the overflow check of `x + 1` are live.
 fn run_u(t: &[&str]) -> Option<(String, Vec<String>)> {
     if t.len() != 6 || !U_FORMATS.contains(&t[1]) {
+        return None;
+    }
+    let format = format_by_name(t[1])?;
+    let mut px = [0.0f32; 4];
+    for i in 0..4 {
+        px[i] = f32::from_bits(t[2 + i].parse::<u32>().ok()?);
+    }
+    encode_px(format, px)
+}
+
+/// formats encoded with `s16::from_uf32`, the quantiser that computes in binary64
+pub const W_FORMATS: &[&str] = &["R16_SNORM", "R16G16_SNORM", "R16G16B16A16_SNORM"];
+
+/// `W <format> <r> <g> <b> <a>`: a 1x1 RGBA f32 pixel given by bit patterns into a SNORM16 format; the stored
+/// 16-bit codes are compared with the bit-level model of `s16::from_uf32` (software binary64). In the checked
+/// profile the overflow check of `norm + 1` is live.
+fn run_w(t: &[&str]) -> Option<(String, Vec<String>)> {
+    if t.len() != 6 || !W_FORMATS.contains(&t[1]) {
         return None;
     }
     let format = format_by_name(t[1])?;
@@ -848,6 +867,88 @@ fn gen_u(out: &mut Vec<String>, seed: u64, thorough: bool) {
     }
 }
 
+/// bit patterns around everything `(x.min(1.0) as f64 * 65534.0 + 0.5) as u16` branches on: NaNs of several
+/// payloads and both signs, infinities, both zeros, negative values, subnormals, huge values, values just below /
+/// at / above 0 and 1, the rounding boundaries `(k + 0.5) / 65534` of a spread of codes `k` (thorough: every code once, a denser spread)
+/// with their float neighbours, the region below 2^-37 where the binary64 sum `p + 0.5` is not exact
+fn gen_w(out: &mut Vec<String>, seed: u64, thorough: bool) {
+    let mut rng = Rng::new(seed ^ 0x5331_365F_4636_3442);
+    const SPECIAL: &[u32] = &[
+        0, 0x8000_0000, 1, 2, 0x8000_0001, 0x007F_FFFF, 0x807F_FFFF, 0x0080_0000, 0x0080_0001, 0x8080_0000,
+        0x7F80_0000, 0xFF80_0000, 0x7FC0_0000, 0xFFC0_0000, 0x7F80_0001, 0xFF80_0001, 0x7FFF_FFFF, 0xFFFF_FFFF,
+        0x7FA5_5AA5, 0xFFD2_3456, 0x7F7F_FFFF, 0xFF7F_FFFF, 0x3F80_0000, 0x3F7F_FFFF, 0x3F7F_FFFE, 0x3F80_0001,
+        0x3F80_0002, 0x3F00_0000, 0x3EFF_FFFF, 0x3F00_0001, 0xBF80_0000, 0xBF00_0000, 0xBEFF_FFFF, 0xBF00_0001,
+        0xB300_0000, 0x4000_0000, 0x4780_0000, 0x477F_FE00, 0x7F00_0000, 0x3C00_0000, 0x3B80_8081, 0x3700_0000,
+        0x3700_0080, 0x3700_0100, 0x36FF_FFFF, 0x3700_0001, 0x3780_0000, 0x3780_0040, 0x2480_0000, 0x2400_0000,
+        0x2500_0000, 0x1E80_0000, 0x0D00_0000, 0x0C80_0000,
+        // 0.25 and 0.75: the only inputs whose product with 65534 is an exact tie (k + 0.5), and neighbours
+        0x3E80_0000, 0x3E7F_FFFF, 0x3E80_0001, 0x3F40_0000, 0x3F3F_FFFF, 0x3F40_0001,
+    ];
+    let threshold = |k: u32| (((k as f64) + 0.5) / 65534.0) as f32;
+    for name in W_FORMATS {
+        for &v in SPECIAL {
+            out.push(format!("W {name} {v} {v} {v} {v}"));
+            out.push(format!("W {name} {v} 0 {} {}", 0x3F80_0000u32, 0x3F00_0000u32));
+            out.push(format!("W {name} {} {v} 0 {v}", 0x3F80_0000u32));
+        }
+        // every exponent field with the smallest / largest / a middle fraction, both signs
+        for e in 0..=255u32 {
+            for f in [0u32, 1, 0x40_0000, 0x7F_FFFF, 0x7F_FFFE, 0x2A_AAAB] {
+                let v = e << 23 | f;
+                out.push(format!("W {name} {v} {} {} {v}", v | 0x8000_0000, v ^ 0x0055_5555));
+            }
+        }
+        // the rounding boundaries: the first and last codes always, a spread in between
+        let step = if thorough { 17 } else { 131 };
+        let mut ks: Vec<u32> = (0..40).chain(65494..=65534).collect();
+        let mut k = 40;
+        while k < 65494 {
+            ks.push(k);
+            k += step;
+        }
+        for p in 0..16 {
+            for d in [-1i32, 0, 1] {
+                ks.push(((1u32 << p) as i32 + d).max(0) as u32);
+            }
+        }
+        for &k in &ks {
+            let t = threshold(k).to_bits();
+            for d in [-2i32, -1, 0, 1, 2] {
+                let v = (t as i32 + d) as u32;
+                let w = *rng.pick(SPECIAL);
+                out.push(format!("W {name} {v} {v} {v} {v}"));
+                out.push(format!("W {name} {w} {v} {w} {}", v | 0x8000_0000));
+            }
+        }
+        // thorough: EVERY code's boundary in one pixel (one ulp below, at, one and two ulps above)
+        if thorough && *name == "R16G16B16A16_SNORM" {
+            for k in 0..=65534u32 {
+                let t = threshold(k).to_bits();
+                out.push(format!("W {name} {} {t} {} {}", t - 1, t + 1, t + 2));
+            }
+        }
+        let n = if thorough { 60_000 } else { 2_500 };
+        for _ in 0..n {
+            let mut px = [0u32; 4];
+            for p in px.iter_mut() {
+                *p = match rng.below(12) {
+                    0 => rng.next() as u32,
+                    1 => *rng.pick(SPECIAL),
+                    // tiny values: the sum with 0.5 is rounded
+                    2 => (rng.range(0, 100) as u32) << 23 | (rng.next() as u32 & 0x7F_FFFF),
+                    3 => 0x8000_0000 | (rng.range(0, 255) as u32) << 23 | (rng.next() as u32 & 0x7F_FFFF),
+                    4 | 5 | 6 => threshold(rng.below(65535) as u32).to_bits().wrapping_add(rng.below(5) as u32).wrapping_sub(2),
+                    // around 2^-16 … 2^-14: the first codes
+                    7 => (rng.range(108, 114) as u32) << 23 | (rng.next() as u32 & 0x7F_FFFF),
+                    8 => (rng.range(127, 255) as u32) << 23 | (rng.next() as u32 & 0x7F_FFFF),
+                    _ => (rng.range(100, 127) as u32) << 23 | (rng.next() as u32 & 0x7F_FFFF),
+                };
+            }
+            out.push(format!("W {name} {} {} {} {}", px[0], px[1], px[2], px[3]));
+        }
+    }
+}
+
 pub fn gen(seed: u64, thorough: bool) -> Vec<String> {
     let mut g = G { rng: Rng::new(seed), out: vec![] };
     let formats = all_formats();
@@ -1036,6 +1137,8 @@ pub fn gen(seed: u64, thorough: bool) -> Vec<String> {
     gen_s(&mut g.out, seed, thorough);
     // (f3) U cases: bit patterns through the f32 UNORM / SNORM8 quantisers of six packed formats
     gen_u(&mut g.out, seed, thorough);
+    // (f4) W cases: bit patterns through `s16::from_uf32` (binary64) of the three SNORM16 formats
+    gen_w(&mut g.out, seed, thorough);
 
     // (g) PRNG over the whole quantifier
     let n = if thorough { 1_200_000 } else { 40_000 };
